@@ -23,6 +23,7 @@ import (
 	"time"
 
 	"com.tuntun.rangers/node/src/common"
+	crypto "com.tuntun.rangers/node/src/eth_crypto"
 	"com.tuntun.rangers/node/src/vm"
 	"github.com/holiman/uint256"
 	"verif/harness/hx"
@@ -352,6 +353,18 @@ func (g *gen) progCalls() ([]byte, []byte, []byte) {
 	// put some bytes in memory as call input
 	a.push(lattice(r)).pushU(0).op(0x52)
 	a.push(lattice(r)).pushU(32).op(0x52)
+	if r.Chance(1, 6) {
+		// a MODEXP header with boundary length words, then a call to 0x05 with all the gas
+		for w := 0; w < 3; w++ {
+			a.push(lenWord(r)).pushU(uint64(32 * w)).op(0x52)
+		}
+		a.pushU(uint64(r.Intn(70))).pushU(uint64(r.Intn(100))).pushU(uint64(96 + r.Intn(70))).pushU(0)
+		kind := []byte{0xf1, 0xf2, 0xf4, 0xfa}[r.Intn(4)]
+		if kind == 0xf1 || kind == 0xf2 {
+			a.pushU(0)
+		}
+		a.pushU(5).op(0x5a).op(kind)
+	}
 	nCalls := 1 + r.Intn(3)
 	for c := 0; c < nCalls; c++ {
 		kind := []byte{0xf1, 0xf2, 0xf4, 0xfa}[r.Intn(4)]
@@ -375,6 +388,9 @@ func (g *gen) progCalls() ([]byte, []byte, []byte) {
 			inSize = uint64(r.Pick(128, 192, 213, 160, 288, 384, 96))
 		}
 		inOff := uint64(r.Intn(40))
+		if r.Chance(1, 4) {
+			inOff = 0
+		}
 		a.pushU(retSize).pushU(retOff).pushU(inSize).pushU(inOff)
 		if kind == 0xf1 || kind == 0xf2 {
 			if r.Chance(1, 3) {
@@ -473,9 +489,108 @@ func (g *gen) progDeep() ([]byte, []byte, []byte) {
 	return a.bytes(), nil, nil
 }
 
+// AUTH with a real signature (EIP-3074 style), then AUTHCALL on behalf of the signer
+func (g *gen) progAuthLive() ([]byte, []byte, []byte) {
+	r := g.r
+	a := &asm{}
+	var key []byte
+	for {
+		key = r.Bytes(32)
+		if _, err := crypto.ToECDSA(key); err == nil {
+			break
+		}
+	}
+	prv, _ := crypto.ToECDSA(key)
+	authority := crypto.PubkeyToAddress(prv.PublicKey)
+	commit := r.Bytes(32)
+	if r.Chance(1, 4) {
+		commit = make([]byte, 32)
+	}
+	msg := make([]byte, 97)
+	msg[0] = 0x03
+	cid := common.GetChainId(blockNumber).Bytes()
+	copy(msg[33-len(cid):33], cid)
+	copy(msg[45:65], target.Bytes())
+	copy(msg[65:], commit)
+	hash := crypto.Keccak256(msg)
+	signed := hash
+	if r.Chance(1, 2) {
+		signed = crypto.Keccak256([]byte("\x19Ethereum Signed Message:\n32"), hash)
+	}
+	sig, err := crypto.Sign(signed, prv)
+	if err != nil {
+		panic(err)
+	}
+	v := uint64(sig[64])
+	if r.Chance(1, 2) {
+		v += 27
+	}
+	auth := new(big.Int).SetBytes(authority.Bytes())
+	switch r.Intn(9) {
+	case 0: // wrong authority
+		auth = new(big.Int).SetBytes(r.Bytes(20))
+	case 1: // signature over something else
+		sig[5] ^= 0x40
+	case 2: // other recovery id
+		v ^= 1
+	}
+	a.pushU(v).pushU(0).op(0x52)
+	a.pushB(sig[0:32]).pushU(32).op(0x52)
+	a.pushB(sig[32:64]).pushU(64).op(0x52)
+	a.pushB(commit).pushU(96).op(0x52)
+	a.pushU(128).pushU(0).push(auth).op(0xf6)
+	n := 1 + r.Intn(2)
+	for i := 0; i < n; i++ {
+		// AUTHCALL: nonce, gas, addr, value, valueExt, argsOffset, argsLength, retOffset, retLength
+		var to *big.Int
+		switch r.Intn(5) {
+		case 0:
+			to = new(big.Int).SetBytes(auxAddr.Bytes())
+		case 1:
+			to = big.NewInt(int64(1 + r.Intn(18)))
+		case 2:
+			to = new(big.Int).SetBytes(r.Bytes(20))
+		case 3:
+			to = new(big.Int).SetBytes(target.Bytes())
+		default:
+			to = new(big.Int).SetBytes(emptyAcc.Bytes())
+		}
+		a.pushU(uint64(r.Intn(70))).pushU(uint64(128 + r.Intn(64))).pushU(uint64(r.Intn(70))).pushU(uint64(r.Intn(64)))
+		if r.Chance(1, 8) {
+			a.pushU(1) // valueExt != 0
+		} else {
+			a.pushU(0)
+		}
+		if r.Chance(1, 3) {
+			a.pushU(uint64(r.Intn(2000)))
+		} else {
+			a.pushU(0)
+		}
+		a.push(to)
+		if r.Chance(1, 2) {
+			a.op(0x5a)
+		} else {
+			a.pushU(uint64(r.Intn(100000)))
+		}
+		nonce := uint64(i)
+		if r.Chance(1, 5) {
+			nonce = uint64(r.Intn(3))
+		}
+		a.pushU(nonce).op(0xf7)
+		a.op(0x3d) // RETURNDATASIZE
+		a.op(0x01)
+	}
+	a.op(0x5a)
+	a.storeTopAndReturn()
+	return a.bytes(), r.Bytes(r.Intn(20)), g.auxProg()
+}
+
 // AUTH / AUTHCALL and the staking opcodes
 func (g *gen) progCustom() ([]byte, []byte, []byte) {
 	r := g.r
+	if r.Chance(1, 2) {
+		return g.progAuthLive()
+	}
 	a := &asm{}
 	switch r.Intn(6) {
 	case 0: // AUTH on expanded memory with junk signature
@@ -595,6 +710,32 @@ func rawProbe(line string) (string, string) {
 	return opLine, status
 }
 
+// length words for the modexp header
+func lenWord(r *hx.Rng) *big.Int {
+	switch r.Intn(16) {
+	case 0, 1, 2, 3, 4:
+		return big.NewInt(int64(r.Intn(40)))
+	case 5:
+		return big.NewInt(int64(r.Pick(31, 32, 33, 64, 65, 1024, 1025)))
+	case 6:
+		return new(big.Int).Add(pow2(61), big.NewInt(int64(r.Intn(70))))
+	case 7:
+		return new(big.Int).Add(pow2(uint(r.Pick(32, 60, 61, 62, 63))), big.NewInt(int64(r.Intn(40))))
+	case 8:
+		return new(big.Int).Sub(pow2(64), big.NewInt(int64(1+r.Intn(40))))
+	case 9:
+		return new(big.Int).Add(pow2(64), big.NewInt(int64(r.Intn(70))))
+	case 10:
+		return new(big.Int).Add(pow2(uint(r.Pick(65, 128, 255))), big.NewInt(int64(r.Intn(40))))
+	case 11:
+		return new(big.Int).Sub(pow2(256), big.NewInt(1))
+	case 12:
+		return new(big.Int).SetUint64(r.U64())
+	default:
+		return big.NewInt(int64(r.Intn(3)))
+	}
+}
+
 func (g *gen) precompileInput(addr int) []byte {
 	r := g.r
 	var n int
@@ -623,13 +764,20 @@ func (g *gen) precompileInput(addr int) []byte {
 			}
 		}
 	}
-	if addr == 5 && n >= 96 {
-		// modexp length words: small / boundary
-		for w := 0; w < 3; w++ {
-			v := memArg(r)
-			if r.Chance(2, 3) {
-				v = big.NewInt(int64(r.Intn(40)))
+	if addr == 5 {
+		// modexp header: three 32-byte length words from a boundary lattice that reaches the
+		// uint64 edges (2^61+32 is where 8*(expLen-32) passes 2^64), then a short payload
+		if n < 96 || r.Chance(1, 2) {
+			n = 96 + r.Intn(70)
+			in = r.Bytes(n)
+			if r.Chance(1, 2) {
+				for i := 96; i < n; i++ {
+					in[i] = 0
+				}
 			}
+		}
+		for w := 0; w < 3; w++ {
+			v := lenWord(r)
 			bs := v.Bytes()
 			for i := 0; i < 32; i++ {
 				in[w*32+i] = 0
@@ -736,6 +884,7 @@ func main() {
 	if a["mode"] == "search" {
 		hxnode.BootServices("dev")
 		installPrecompileWrappers()
+		installStepHook()
 		searchMain(a)
 		return
 	}
@@ -748,6 +897,7 @@ func main() {
 	limitAddressSpace()
 	hxnode.BootServices("dev")
 	installPrecompileWrappers()
+	installStepHook()
 	r := hx.NewRng(hx.SeedFromEnv())
 	g := &gen{r: r, ops: definedOps()}
 	setConfig(63)
@@ -799,13 +949,16 @@ func main() {
 		case k < 17:
 			kind = "calls"
 			code, input, aux = g.progCalls()
-		case k < 19:
+		case k < 18:
 			kind = "create"
 			code, input, aux = g.progCreate()
 		default:
 			kind = "custom"
 			code, input, aux = g.progCustom()
 			cfg |= 1 | 2
+			if gas < 200000 && r.Chance(2, 3) {
+				gas = 1000000
+			}
 		}
 		genKinds[kind]++
 		if r.Chance(1, 12) {
@@ -844,10 +997,25 @@ func main() {
 	npc := hx.ArgInt(a, "pgas", 1500)
 	for i := 0; i < npc; i++ {
 		addr := 1 + r.Intn(18)
+		if r.Chance(1, 4) {
+			addr = 5
+		}
 		in := g.precompileInput(addr)
 		p := rawPrecompiles[precompileAddr(addr)]
 		op := fmt.Sprintf("pgas %d %s", addr, hexTok(in))
-		out.Do(op, func() string { return strconv.FormatUint(p.RequiredGas(in), 10) })
+		out.Do(op, func() string {
+			gas := p.RequiredGas(in)
+			cls := "skip"
+			if gas <= 3000000 {
+				// cheap enough to execute: did Run's input-length gate let it through?
+				_, err := p.Run(in)
+				cls = "run"
+				if err != nil && (err.Error() == "invalid input length" || err.Error() == "bad elliptic curve pairing size") {
+					cls = "lenerr"
+				}
+			}
+			return strconv.FormatUint(gas, 10) + " " + cls
+		})
 	}
 	kinds := []string{}
 	for k, v := range genKinds {
